@@ -3,7 +3,8 @@
 context.Context, into the packages' zz_verif_contracts.go (between BEGIN/END markers).  One-off helper:
 the generated text is committed in /repo; the checks never run this script."""
 import re, os, sys, collections
-REPO = '/repo'
+import os as _os
+REPO = _os.environ.get('GEN_REPO', '/repo')
 # functions whose contract omits the 'cancelled' clause (they never poll the context on some success path)
 NO_CANCELLED = set(l.strip() for l in open(os.path.join(os.path.dirname(__file__), 'c18_no_cancelled.txt')) if l.strip() and not l.startswith('#'))
 EXTRA = {}  # key -> extra contract lines
@@ -273,7 +274,7 @@ for k in ('common:ProcessSlots', 'common:StateTransition', 'common:PostSlotTrans
     EXTRA.setdefault('eth2/beacon/' + k, []).append(_BALG)
 # process_withdrawals (C03: the payload carries exactly the expected withdrawals; C01: balances decreased once per withdrawal, sweep cursors advanced)
 PROPS['eth2/beacon/capella:ProcessWithdrawals'] = ' C03 C01'
-_WS = 'old(n_set_bal), st_vals(state), st_bals(state), st_slot(state) / spec.SLOTS_PER_EPOCH, spec.MAX_EFFECTIVE_BALANCE, st_next_wvi(state), reg_len(st_vals(state))'
+_WS = 'old(n_wd_write), old(n_set_bal), st_vals(state), st_bals(state), st_slot(state) / spec.SLOTS_PER_EPOCH, spec.MAX_EFFECTIVE_BALANCE, st_next_wvi(state), reg_len(st_vals(state))'
 _WB = 'min(reg_len(st_vals(state)), spec.MAX_VALIDATORS_PER_WITHDRAWALS_SWEEP)'
 _WP = ('old(spec != nil && state != nil && executionPayload != nil && spec.SLOTS_PER_EPOCH != 0 && spec.MAX_WITHDRAWALS_PER_PAYLOAD > 0 && spec.MAX_WITHDRAWALS_PER_PAYLOAD < 4611686018427387904 && st_next_wi(state) < 4611686018427387904 && st_next_wvi(state) < 4611686018427387904 && spec.MAX_VALIDATORS_PER_WITHDRAWALS_SWEEP < 4611686018427387904)')
 _PL = 'pl_wds(executionPayload)'
@@ -301,6 +302,82 @@ for f in ('capella', 'deneb'):
     EXTRA.setdefault('eth2/beacon/%s:BeaconStateView.ProcessBlock' % f, []).append('//@   assigns ghost(n_set_nwi), ghost(set_nwi), ghost(n_set_nwvi), ghost(set_nwvi)')
 for k in ('eth2/beacon/common:PostSlotTransition', 'eth2/beacon/common:StateTransition'):
     EXTRA.setdefault(k, []).append('//@   assigns ghost(n_set_nwi), ghost(set_nwi), ghost(n_set_nwvi), ghost(set_nwvi)')
+# process_sync_aggregate (C03: aggregate signature of the set bits' keys over the previous slot's block root; C01: participant and proposer rewards)
+PROPS['eth2/beacon/altair:ProcessSyncAggregate'] = ' C03 C01'
+_SZ = 'spec.SYNC_COMMITTEE_SIZE'
+_SBITS = 'old(agg.SyncCommitteeBits)'
+_SPREV = 'ite(st_slot(state) == 0, 0, st_slot(state) - 1)'
+_SMSG = 'seq(signing_root(roots_at(st_broots(state), %s), state_domain(state, common.DOMAIN_SYNC_COMMITTEE, %s / spec.SLOTS_PER_EPOCH)))' % (_SPREV, _SPREV)
+_SQ0 = ('old(spec != nil && epc != nil && state != nil && agg != nil && spec.SLOTS_PER_EPOCH != 0 && spec.SYNC_COMMITTEE_SIZE < 1048576 && epc.CurrentSyncCommittee != nil'
+        ' && len(epc.CurrentSyncCommittee.CachedPubkeys) >= spec.SYNC_COMMITTEE_SIZE && len(epc.CurrentSyncCommittee.Indices) >= spec.SYNC_COMMITTEE_SIZE'
+        ' && (forall t :: {epc.CurrentSyncCommittee.CachedPubkeys[t]} 0 <= t && t < spec.SYNC_COMMITTEE_SIZE ==> epc.CurrentSyncCommittee.CachedPubkeys[t] != nil))')
+_TBR = 'mul64(mul64(spec.EFFECTIVE_BALANCE_INCREMENT, spec.BASE_REWARD_FACTOR) / epc.TotalActiveStakeSqRoot, epc.TotalActiveStake / spec.EFFECTIVE_BALANCE_INCREMENT)'
+_PREW = '((((%s * 2) %% 18446744073709551616) / 64) / spec.SLOTS_PER_EPOCH / spec.SYNC_COMMITTEE_SIZE)' % _TBR
+_PROPREW = '(((%s * 8) %% 18446744073709551616) / 56)' % _PREW
+EXTRA['eth2/beacon/altair:ProcessSyncAggregate'] += [
+    '//@   opt mul=opaque',
+    '//@   use mul64_range',
+    '//@   assigns heap(CachedPubkey.decompressed)',
+    '//@   ensures c03_signature: err == nil && ' + _SQ0 + ' ==> !st_slot_err(state) && sig_valid(old(agg.SyncCommitteeSignature)) && (exists pks PubPts :: {bls_agg_ok(pks, %s, old(agg.SyncCommitteeSignature))} bls_agg_ok(pks, %s, old(agg.SyncCommitteeSignature)) && len(pks) == bit_rank(%s, %s) && (forall t :: {bit_rank(%s, t)} 0 <= t && t < %s && bl_bit(%s, t) ==> pks[bit_rank(%s, t)] != nil && pt_bytes(pks[bit_rank(%s, t)]) == old(epc.CurrentSyncCommittee.CachedPubkeys[t].Compressed)))' % (_SMSG, _SMSG, _SBITS, _SZ, _SBITS, _SZ, _SBITS, _SBITS, _SBITS),
+    '//@   ensures c01_rewards: err == nil && ' + _SQ0 + ' ==> !st_bals_err(state) && !epc_proposer_err(epc, st_slot(state)) && n_set_bal == old(n_set_bal) + %s + 1 && (forall k :: {bal_at(n_set_bal, st_bals(state), k)} bal_at(n_set_bal, st_bals(state), k) == (let b := sync_bal(old(n_set_bal), st_bals(state), old(epc.CurrentSyncCommittee.Indices), %s, old(%s), k, %s) in ite(k == epc_proposer(epc, st_slot(state)), (b + mul64(old(%s), bit_rank(%s, %s))) %% 18446744073709551616, b)))' % (_SZ, _SBITS, _PREW, _SZ, _PROPREW, _SBITS, _SZ),
+    '//@   loop 1',
+    '//@     invariant 0 <= i && i <= %s && len(participantPubkeys) == bit_rank(agg.SyncCommitteeBits, i) && len(participantPubkeys) <= i && n_set_bal == old(n_set_bal) && currentSlot == st_slot(state)' % _SZ,
+    '//@     invariant ' + _SQ0 + ' ==> (forall t :: {bit_rank(agg.SyncCommitteeBits, t)} 0 <= t && t < i && bl_bit(agg.SyncCommitteeBits, t) ==> 0 <= bit_rank(agg.SyncCommitteeBits, t) && bit_rank(agg.SyncCommitteeBits, t) < len(participantPubkeys) && participantPubkeys[bit_rank(agg.SyncCommitteeBits, t)] != nil && pt_bytes(participantPubkeys[bit_rank(agg.SyncCommitteeBits, t)]) == epc.CurrentSyncCommittee.CachedPubkeys[t].Compressed)',
+    '//@   loop 2',
+    '//@     invariant 0 <= i && i <= %s && n_set_bal == old(n_set_bal) + i && bals == st_bals(state) && currentSlot == st_slot(state) && len(participantPubkeys) == bit_rank(agg.SyncCommitteeBits, %s)' % (_SZ, _SZ),
+    '//@     invariant participantReward == %s && proposerReward == %s' % (_PREW, _PROPREW),
+    '//@     invariant ' + _SQ0 + ' ==> (forall k :: {bal_at(n_set_bal, st_bals(state), k)} bal_at(n_set_bal, st_bals(state), k) == sync_bal(old(n_set_bal), st_bals(state), epc.CurrentSyncCommittee.Indices, agg.SyncCommitteeBits, participantReward, k, i))']
+# process_registry_updates (C02): ejections through the exit queue, activation eligibility, activations
+_RB = '(epc.CurrentEpoch.Epoch + 1 + spec.MAX_SEED_LOOKAHEAD)'
+_RL = 'rq_lim(spec.MIN_PER_EPOCH_CHURN_LIMIT, spec.CHURN_LIMIT_QUOTIENT, flats, epc.CurrentEpoch.Epoch)'
+_RE = 'rq_end(flats, %s, %s)' % (_RB, _RL)
+_RC = 'rq_churn(flats, %s, %s)' % (_RB, _RL)
+_RV = 'reg_val(st_vals(state), p)'
+_RP0 = ('old(spec != nil && epc != nil && state != nil && epc.CurrentEpoch != nil && spec.CHURN_LIMIT_QUOTIENT != 0 && %s < 4611686018427387904 && len(flats) < 4611686018427387904 && @RE@ < 4611686018427387904 && @RL@ < 4611686018427387904'
+        ' && (forall a, b :: {reg_val(st_vals(state), a), reg_val(st_vals(state), b)} 0 <= a && a < b && b < len(flats) ==> reg_val(st_vals(state), a) != reg_val(st_vals(state), b)))') % _RB
+_RP0 = _RP0.replace('@RE@', _RE).replace('@RL@', _RL)
+_EJC = 'eject_cnt(flats, epc.CurrentEpoch.Epoch, spec.EJECTION_BALANCE, p)'
+_EJ = 'registerData.IndicesToEject'
+_EL = 'registerData.IndicesToSetActivationEligibility'
+for _f in ('phase0', 'deneb'):
+    PROPS['eth2/beacon/%s:ProcessEpochRegistryUpdates' % _f] = ' C02'
+    EXTRA.setdefault('eth2/beacon/%s:ProcessEpochRegistryUpdates' % _f, [])
+    EXTRA['eth2/beacon/%s:ProcessEpochRegistryUpdates' % _f] += [
+    '//@   opt rangeindex=on',
+    '//@   use ejq_epoch_bound',
+    '//@   assigns ghost(n_aelig_write), ghost(n_set_act), ghost(last_set_act_v), ghost(last_set_act_val)',
+    '//@   ensures c02_ejected: err == nil && ' + _RP0 + ' ==> (forall p :: {%s} 0 <= p && p < len(flats) && reg_eject(flats[p], old(epc.CurrentEpoch.Epoch), spec.EJECTION_BALANCE) ==> v_exit(n_val_write, %s) == old(ejq_epoch(%s, %s, %s, %s)) && v_wd(n_wd_write, %s) == old(ejq_epoch(%s, %s, %s, %s)) + spec.MIN_VALIDATOR_WITHDRAWABILITY_DELAY)' % (_RV, _RV, _RE, _RC, _RL, _EJC, _RV, _RE, _RC, _RL, _EJC),
+    '//@   ensures c02_not_ejected: err == nil && ' + _RP0 + ' ==> (forall p :: {%s} 0 <= p && p < len(flats) && !reg_eject(flats[p], old(epc.CurrentEpoch.Epoch), spec.EJECTION_BALANCE) ==> v_exit(n_val_write, %s) == old(v_exit(n_val_write, %s)) && v_wd(n_wd_write, %s) == old(v_wd(n_wd_write, %s)))' % (_RV, _RV, _RV, _RV, _RV),
+    '//@   ensures c02_eligible: err == nil && ' + _RP0 + ' ==> (forall p :: {%s} 0 <= p && p < len(flats) && reg_elig(flats[p], spec.MAX_EFFECTIVE_BALANCE) ==> elig_cnt(flats, spec.MAX_EFFECTIVE_BALANCE, p) >= 0 && v_aelig(n_aelig_write, %s) == (old(epc.CurrentEpoch.Epoch) + 1) %% 18446744073709551616)' % (_RV, _RV),
+    '//@   ensures c02_not_eligible: err == nil && ' + _RP0 + ' ==> (forall p :: {%s} 0 <= p && p < len(flats) && !reg_elig(flats[p], spec.MAX_EFFECTIVE_BALANCE) ==> v_aelig(n_aelig_write, %s) == old(v_aelig(n_aelig_write, %s)))' % (_RV, _RV, _RV),
+    '//@   ensures c02_activation: err == nil && ' + _RP0 + ' ==> n_set_act >= old(n_set_act) && n_set_act - old(n_set_act) <= maybe_cnt(flats, old(epc.CurrentEpoch.Epoch), len(flats)) && (n_set_act > old(n_set_act) ==> last_set_act_val == old(%s))' % _RB,
+    '//@   loop 1',
+    '//@     invariant vals == st_vals(state) && n_aelig_write == old(n_aelig_write) && n_set_act == old(n_set_act)',
+    '//@     invariant ' + _RP0 + ' ==> registerData != nil && exitEnd == ejq_epoch(%s, %s, %s, rangeindex + 1) && endChurn == ejq_churn(%s, %s, rangeindex + 1) && registerData.ChurnLimit == %s && endChurn <= registerData.ChurnLimit' % (_RE, _RC, _RL, _RC, _RL, _RL),
+    '//@     invariant ' + _RP0 + ' ==> (forall j :: {%s[j]} 0 <= j && j <= rangeindex ==> v_exit(n_val_write, reg_val(vals, %s[j])) == ejq_epoch(%s, %s, %s, j) && v_wd(n_wd_write, reg_val(vals, %s[j])) == ejq_epoch(%s, %s, %s, j) + spec.MIN_VALIDATOR_WITHDRAWABILITY_DELAY)' % (_EJ, _EJ, _RE, _RC, _RL, _EJ, _RE, _RC, _RL),
+    '//@     invariant forall w ValI :: {v_exit(n_val_write, w)} {v_wd(n_wd_write, w)} (forall j :: {%s[j]} 0 <= j && j <= rangeindex ==> reg_val(vals, %s[j]) != w) ==> v_exit(n_val_write, w) == v_exit(old(n_val_write), w) && v_wd(n_wd_write, w) == v_wd(old(n_wd_write), w)' % (_EJ, _EJ),
+    '//@   loop 2',
+    '//@     invariant vals == st_vals(state) && n_set_act == old(n_set_act) && eligibilityEpoch == (epc.CurrentEpoch.Epoch + 1) % 18446744073709551616',
+    '//@     invariant ' + _RP0 + ' ==> (forall j :: {%s[j]} 0 <= j && j <= rangeindex ==> v_aelig(n_aelig_write, reg_val(vals, %s[j])) == eligibilityEpoch)' % (_EL, _EL),
+    '//@     invariant forall w ValI :: {v_aelig(n_aelig_write, w)} (forall j :: {%s[j]} 0 <= j && j <= rangeindex ==> reg_val(vals, %s[j]) != w) ==> v_aelig(n_aelig_write, w) == v_aelig(old(n_aelig_write), w)' % (_EL, _EL),
+    '//@   loop 3',
+    '//@     invariant n_set_act >= old(n_set_act) && n_set_act - old(n_set_act) <= rangeindex + 1 && (n_set_act > old(n_set_act) ==> last_set_act_val == activationEpoch)']
+for f in ('phase0', 'altair', 'bellatrix', 'capella', 'deneb'):
+    EXTRA.setdefault('eth2/beacon/%s:BeaconStateView.ProcessEpoch' % f, []).append('//@   assigns ghost(n_aelig_write), ghost(n_set_act), ghost(last_set_act_v), ghost(last_set_act_val)')
+for k in ('eth2/beacon/common:ProcessSlots', 'eth2/beacon/common:StateTransition'):
+    EXTRA.setdefault(k, []).append('//@   assigns ghost(n_aelig_write), ghost(n_set_act), ghost(last_set_act_v), ghost(last_set_act_val)')
+# process_slot (C02): cache the state root (hashed before anything is written), complete the latest header, cache the block root
+PROPS['eth2/beacon/common:ProcessSlot'] = ' C02'
+_HTR = 'st_htr(state, old(n_set_root + n_set_lhdr))'
+EXTRA.setdefault('eth2/beacon/common:ProcessSlot', [])
+EXTRA['eth2/beacon/common:ProcessSlot'] += [
+    '//@   assigns ghost(n_set_root)',
+    '//@   ensures c02_state_root: err == nil && state != nil && st_sroots(state) != st_broots(state) ==> !st_slot_err(state) && !st_sroots_err(state) && n_set_root == old(n_set_root) + 2 && roots_now(n_set_root, st_sroots(state), st_slot(state)) == %s' % _HTR,
+    '//@   ensures c02_header_completed: err == nil && state != nil && (forall k :: 0 <= k && k < 32 ==> old(st_latest(state).StateRoot[k]) == 0) ==> n_set_lhdr == old(n_set_lhdr) + 1 && set_lhdr.StateRoot == %s && set_lhdr.Slot == old(st_latest(state).Slot) && set_lhdr.ProposerIndex == old(st_latest(state).ProposerIndex) && set_lhdr.ParentRoot == old(st_latest(state).ParentRoot) && set_lhdr.BodyRoot == old(st_latest(state).BodyRoot)' % _HTR,
+    '//@   ensures c02_header_kept: err == nil && state != nil && !(forall k :: 0 <= k && k < 32 ==> old(st_latest(state).StateRoot[k]) == 0) ==> n_set_lhdr == old(n_set_lhdr)',
+    '//@   ensures c02_block_root: err == nil && state != nil && st_sroots(state) != st_broots(state) ==> !st_broots_err(state) && roots_now(n_set_root, st_broots(state), st_slot(state)) == header_root(BeaconBlockHeader(old(st_latest(state).Slot), old(st_latest(state).ProposerIndex), old(st_latest(state).ParentRoot), ite((forall k :: 0 <= k && k < 32 ==> old(st_latest(state).StateRoot[k]) == 0), %s, old(st_latest(state).StateRoot)), old(st_latest(state).BodyRoot)))' % _HTR]
+for k in ('eth2/beacon/common:ProcessSlots', 'eth2/beacon/common:StateTransition'):
+    EXTRA.setdefault(k, []).append('//@   assigns ghost(n_set_root)')
 # end-of-epoch resets (C02): when they fire and with which epoch
 for n in ('ProcessEth1DataReset', 'ProcessSlashingsReset', 'ProcessRandaoMixesReset', 'ProcessHistoricalRootsUpdate'):
     PROPS['eth2/beacon/phase0:' + n] = ' C02'
@@ -344,7 +421,7 @@ for f in ('phase0', 'altair', 'bellatrix', 'capella', 'deneb'):
 for k in ('eth2/beacon/common:ProcessSlots', 'eth2/beacon/common:StateTransition'):
     EXTRA.setdefault(k, []).append(_JG)
 # validator-field writes and registry iteration are recorded in ghosts (C01/C02 exit queue): whatever may reach them lists them
-_VG = '//@   assigns ghost(n_viter), ghost(viter_pos), ghost(viter_reg), ghost(n_val_write), ghost(n_set_exit), ghost(set_exit_v), ghost(set_exit_val), ghost(n_set_wd), ghost(set_wd_v), ghost(set_wd_val)'
+_VG = '//@   assigns ghost(n_viter), ghost(viter_pos), ghost(viter_reg), ghost(n_val_write), ghost(n_wd_write), ghost(n_set_exit), ghost(set_exit_v), ghost(set_exit_val), ghost(n_set_wd), ghost(set_wd_v), ghost(set_wd_val)'
 for f in ('phase0', 'altair', 'bellatrix', 'capella', 'deneb'):
     for m in ('ProcessEpoch', 'ProcessBlock'):
         EXTRA.setdefault('eth2/beacon/%s:BeaconStateView.%s' % (f, m), []).append(_VG)
